@@ -724,7 +724,12 @@ func concPart(out *shardOut, scs []scen.Conc, shard, nshards int, deadline time.
 		body := concBody(sc, &run, vrtSpawn, vrtJoinAll)
 		nviol := 0
 		start := time.Now()
-		st := vrt.Explore(vrt.ExploreConfig{Bound: -1, Deadline: deadline, MaxExecs: maxExecs}, body, func(prefix []int, r *vrt.Result) bool {
+		cfg := vrt.ExploreConfig{Bound: -1, Deadline: deadline, MaxExecs: maxExecs}
+		if sc.Preempt > 0 {
+			cfg.Bound = sc.Preempt
+			cfg.SwitchFree = true
+		}
+		st := vrt.Explore(cfg, body, func(prefix []int, r *vrt.Result) bool {
 			out.Outcomes[r.Outcome]++
 			if r.Outcome != "ok" {
 				out.violate(10000, "conc:"+r.Outcome, fmt.Sprintf("scenario %s schedule %v: %s %s threads %+v", sc, r.ChoiceSeq(), r.Outcome, r.Panic, r.Threads),
@@ -753,7 +758,12 @@ func concPart(out *shardOut, scs []scen.Conc, shard, nshards int, deadline time.
 		if !st.Exhaustive && nviol == 0 {
 			out.Incomplete = fmt.Sprintf("concurrent part: scenario %s not exhausted (%d executions)", sc.Name, st.Execs)
 		}
-		out.Samples = append(out.Samples, map[string]interface{}{"scenario": sc.Name, "interleavings": st.Execs, "distinct_histories": st.DistinctLogs, "max_choice_points": st.MaxChoices, "exhaustive": st.Exhaustive, "seconds": time.Since(start).Seconds()})
+		if sc.Preempt > 0 {
+			out.Counters["conc_scenarios_preemption_bounded"]++
+		} else {
+			out.Counters["conc_scenarios_all_interleavings"]++
+		}
+		out.Samples = append(out.Samples, map[string]interface{}{"scenario": sc.Name, "preemption_bound": sc.Preempt, "interleavings": st.Execs, "distinct_histories": st.DistinctLogs, "max_choice_points": st.MaxChoices, "exhaustive": st.Exhaustive, "seconds": time.Since(start).Seconds()})
 	}
 }
 
